@@ -21,6 +21,7 @@ IP_DUMP = [M_IP + "_BaseIpAnonymizer.dump_to_file@v4", M_IP + "_BaseIpAnonymizer
 IP_UNDO = [M_IP + "_BaseIpAnonymizer.deanonymize", M_IP + "_BaseIpAnonymizer._deanonymize_bits"]
 
 from contracts import regex_obl as _ro   # noqa: E402
+from contracts import cli as _cli        # noqa: E402
 
 PROPS = {
     "C01": dict(
@@ -211,5 +212,25 @@ PROPS = {
              "promised shape is assumed and checked bounded (type 7 decoded, $1$ salt length, $6$ without rounds, $9$ "
              "decrypted).",
         note="E-passlib, E-b2a_hex; text before/after the secret on the line depends on regex capture extents (bounded)",
+    ),
+    "C19": dict(
+        level="other",
+        lemmas=[],
+        functions=[M_NC + "main", M_NC + "host_bits"],
+        generators=[_cli.gen_parse_args_decl],
+        standins=[("rt_files", "C19")],
+        design_ref="7/C19",
+        technique="deductive verification of main (parsed options symbolic, ghost record of the call to "
+                  "anonymize_files) and host_bits with pyvc; declarative obligations on the add_argument calls; "
+                  "config-file precedence is behaviour of configargparse (bounded run only)",
+        text="Proved for every option record: ValueError exactly for the contradictory/unusable combinations and before "
+             "anonymize_files (the only writer) is called; with no anonymization option it is not called; otherwise "
+             "called exactly once with input/output/flags/salt/dump file bound to the documented sources, the same "
+             "host-bit count for both families, and the three RFC 1918 networks as preserved addresses iff "
+             "--preserve-private-addresses; host_bits accepts exactly 0..32; defaults 8 / class+private prefixes are "
+             "what add_argument declares.  NOT applicable to contracts on netconan code: command line vs config "
+             "file precedence (configargparse) - bounded over 4 equivalences and 3 rejected config-file combinations.",
+        note="E-argparse (trusted contract on _parse_args: one record per dest), trusted contract on anonymize_files "
+             "as seen from main; int(str) modelled on the plain-digit domain",
     ),
 }
